@@ -5,6 +5,7 @@ from contextlib import contextmanager
 
 import common  # noqa: F401  (puts the repository on sys.path)
 from common import Outcome, LeanDriver
+from valcodec import HostList, Pair, Endpoint, Port, Name, Ratio, Level
 from valcodec import (enc_tree, enc_environ, enc_str, enc_leaf, enc_chars, build, tag, plain, leaves, sections, typed)
 
 ID = "C16"
@@ -13,7 +14,7 @@ TARGETS = ["drv_env"]
 DRIVER_ROOTS = ["Driver/Env.lean"]
 GENERATED = ["Env", "Config"]
 RULE = ("cases = (nested settings tree with underscore-/case-bearing keys so that distinct paths collide at every depth, "
-        "all leaf types incl. list/tuple/float/None/empty sections, environment with relevant / irrelevant / badly typed / "
+        "all leaf types incl. list/tuple/float/None/empty sections and instances of SUBCLASSES of list / tuple (namedtuple) / int / str / float / IntEnum, environment with relevant / irrelevant / badly typed / "
         "empty / unprefixed / lower-case / section-naming variables, prefix default or custom via a Config subclass - plain or made of regex metacharacters (. + * ? ( ) [ ] | ^ $ \\ { }), with "
         "near-miss variables that match such a prefix as a pattern but not literally - or containing dashes, spaces, mixed case, a leading "
         "digit, leading / trailing underscores, non-ASCII letters, or empty, with near-miss variables a normalisation of the prefix would accept); "
@@ -46,8 +47,12 @@ KEYS = ["a", "b", "a_b", "b_a", "c", "a_b_c", "ab", "A", "B_a", "b_c", "x1", "_a
 KEYW = [6, 6, 5, 3, 4, 3, 2, 2, 1, 3, 2, 1, 1, 0.3,
         2.5, 1.5, 1, 0.5, 0.5, 1.5, 0.7,
         1.5, 0.7, 0.7, 0.5, 0.7, 0.4, 0.7, 0.7, 0.5, 0.5, 0.7]
-LEAVES = [True, False, 0, 7, -3, "s", "", "0", None, [1], ["a", "b"], [], (1,), (), 1.5]
-LEAFW = [4, 4, 2, 3, 2, 4, 2, 1, 4, 0.5, 0.5, 0.3, 0.5, 0.3, 1]
+LEAVES = [True, False, 0, 7, -3, "s", "", "0", None, [1], ["a", "b"], [], (1,), (), 1.5,
+          # instances of SUBCLASSES of the leaf types: list / tuple subclasses (incl. a namedtuple) are list / tuple settings,
+          # a str subclass is a str setting, int / float subclasses and enum members go through their own class
+          HostList(["web1"]), HostList(), Pair((1, 2)), Endpoint("h"), Port(80), Name("n"), Ratio(0.5), Level.LOW]
+LEAFW = [4, 4, 2, 3, 2, 4, 2, 1, 4, 0.5, 0.5, 0.3, 0.5, 0.3, 1,
+         0.6, 0.3, 0.5, 0.6, 0.6, 0.6, 0.4, 0.4]
 NUMERIC = ["1", "0", "42", "-3", " 7 ", "+5", "1_000", "00", "\t8\n", "-0"]
 VALUES = ["1", "0", "", "x", "42", "-3", "yes", " 7 ", "+5", "1_000", "0x1f", "false", "00", "1__0", "_1", "2.5", "- 1", "\t8\n"]
 
@@ -376,8 +381,9 @@ def compare(case, before, exc, after, m, kind):
 
 
 def names_float(case, before):
+    """does the environment name a setting whose class is opaque to the model (float, int / float subclasses, enum members)?"""
     P = case["prefix"].upper() + "_"
-    return any(isinstance(v, float) and (P + var_of(p)) in case["env"] for p, v in leaves(before))
+    return any(enc_leaf(v)[0].startswith("O") and (P + var_of(p)) in case["env"] for p, v in leaves(before))
 
 
 def aux_cases(ctx, rng):
@@ -391,7 +397,7 @@ def aux_cases(ctx, rng):
     for _ in range(ctx.n(100, 1000)):
         cases.append({"kind": "upper", "s": "".join(chr(rng.randint(32, 126)) for _ in range(rng.randint(0, 8)))})
     for _ in range(ctx.n(200, 2000)):
-        cases.append({"kind": "cast", "old": tag(rng.choice([x for x in LEAVES if not isinstance(x, float)])), "s": rng.choice(VALUES)})
+        cases.append({"kind": "cast", "old": tag(rng.choice([x for x in LEAVES if not enc_leaf(x)[0].startswith("O")])), "s": rng.choice(VALUES)})
     for _ in range(ctx.n(300, 3000)):
         cases.append({"kind": "crawl", "tree": tag(gen_tree(rng))})
     for c in cases:
@@ -703,9 +709,9 @@ def master_view(case, upto):
 
 def history_has_opaque(case):
     def any_float(t):
-        return any(isinstance(v, float) for _, v in leaves(t))
+        return any(enc_leaf(v)[0].startswith("O") for _, v in leaves(t))
     return any((op["op"] in LEVEL_CODE and any_float(build(op["tree"]))) or
-               (op["op"] == "write" and isinstance(build(op["value"]), float)) for op in case["ops"])
+               (op["op"] == "write" and enc_leaf(build(op["value"]))[0].startswith("O")) for op in case["ops"])
 
 
 
@@ -760,6 +766,9 @@ def run(ctx):
             allp = {".".join(p) for p, _ in leaves(before)} | {".".join(p) for p in sections(before)}
             spelled = len(allp) < len(list(leaves(before))) + len(list(sections(before)))
             out.hist["dotted_key_spells_a_nested_path:%d" % spelled] += 1
+        for p, v in leaves(before):
+            if type(v) in (HostList, Pair, Endpoint, Port, Name, Ratio, Level) and P + var_of(p) in c["env"]:
+                out.hist["env_names_subclass_value:" + type(v).__name__] += 1
         if kind == "ok":
             out.hist["applied:%d" % min(applied, 4)] += 1
         if kind == "ambiguous":
